@@ -37,6 +37,11 @@ const (
 	MaxTime = 3029529600 // 2066
 )
 
+// maxChannelDepth is the maximum number of levels a channel can have. Every level of a
+// subscription is a node of the subscription trie, an unbounded depth lets a single
+// 64KB packet pin tens of megabytes.
+const maxChannelDepth = 64
+
 var zeroTime = time.Unix(0, 0)
 
 // ChannelOption represents a key/value pair option.
@@ -197,6 +202,10 @@ func (c *Channel) parseChannel(text []byte) (i int) {
 		// If we're reading a separator compute the SSID.
 		case symbol == config.ChannelSeparator:
 			if chanChars == 0 && wildcards == 0 {
+				c.ChannelType = ChannelInvalid
+				return i
+			}
+			if len(c.Query) >= maxChannelDepth {
 				c.ChannelType = ChannelInvalid
 				return i
 			}
